@@ -125,6 +125,7 @@ static void pfx_sink_input(struct upipe *upipe, struct uref *uref, struct upump 
     s->inputs++;
     r->useq = pfx_uref_seq(uref);
     r->phash = pfx_payload_hash(uref, &r->size);
+    r->sig = pfx_uref_sig(uref);
     /* the sink owns the uref: prove it by writing to its attributes */
     uref->priv = 0x5eed;
     if (s->uref_policy == PFX_SINK_KEEP && !s->pfx->overflow) r->uref = uref;
@@ -143,6 +144,7 @@ static int pfx_sink_control(struct upipe *upipe, int command, va_list args)
         struct pfx_rec *r = pfx_log_rec(pfx, s->id, reject ? PFX_FLOWDEF_REJECTED : PFX_FLOWDEF_ACCEPTED);
         s->flowdefs++;
         if (!pfx->overflow) r->uref = flow_def ? uref_dup(flow_def) : NULL;
+        r->sig = pfx_uref_sig(flow_def);
         s->last_rejected = reject;
         if (reject) return UBASE_ERR_INVALID;
         uref_free(s->flow_def);
@@ -280,6 +282,30 @@ uint64_t pfx_payload_hash(struct uref *uref, size_t *size_p)
         }
     }
     if (size_p) *size_p = size;
+    return h;
+}
+
+uint64_t pfx_uref_sig(struct uref *uref)
+{
+    if (uref == NULL) return 0;
+    size_t size;
+    uint64_t h = pfx_payload_hash(uref, &size);
+    h = vp_hash_mix(h, size);
+    h = vp_hash_mix(h, uref->flags); h = vp_hash_mix(h, uref->date_sys); h = vp_hash_mix(h, uref->date_prog);
+    h = vp_hash_mix(h, uref->date_orig); h = vp_hash_mix(h, uref->dts_pts_delay); h = vp_hash_mix(h, uref->cr_dts_delay);
+    h = vp_hash_mix(h, uref->rap_cr_delay);
+    if (uref->udict != NULL) {
+        uint64_t sum = 0;
+        const char *name = NULL; enum udict_type type = UDICT_TYPE_END;
+        while (ubase_check(udict_iterate(uref->udict, &name, &type)) && type != UDICT_TYPE_END) {
+            size_t vs = 0; const uint8_t *v = NULL;
+            uint64_t a = vp_hash_mix(VP_HASH_INIT, type);
+            if (name) a = vp_hash_bytes(a, name, strlen(name));
+            if (ubase_check(udict_get(uref->udict, name, type, &vs, &v)) && v) a = vp_hash_bytes(a, v, vs);
+            sum += a;
+        }
+        h = vp_hash_mix(h, sum);
+    }
     return h;
 }
 
